@@ -17,12 +17,17 @@ func F(id, params, results string, opts ...func(*Func)) *Func {
 	for _, s := range splitTop(params, ',') {
 		f.Params = append(f.Params, parseParam(s))
 	}
+	errIdx := -1
 	for _, s := range splitTop(results, ',') {
 		if s == "error" {
 			f.Err = true
+			errIdx = len(f.Results)
 			continue
 		}
 		f.Results = append(f.Results, parseResult(s))
+	}
+	if errIdx >= 0 && errIdx < len(f.Results) {
+		f.ErrAt = errIdx + 1 // the error is not the last result
 	}
 	for _, o := range opts {
 		o(f)
